@@ -1,10 +1,153 @@
 import CueVerif.Driver.Proto
+import CueVerif.Model.Core
+/-!
+Line protocol of C01.
+
+`eval <tokens…>` — the words after `eval` are a prefix encoding of an expression:
+  `T` top | `B` bottom | `i<int>` | `s<nat>` (n-th string constant) | `b0` | `b1` | `N` null
+  | `tI` | `tS` | `tB` | `r<lo>:<hi>` (lo, hi an integer or `*`)
+  | `&` e e | `c` e (close) | `{` n d1 … dn
+  declaration: `f<l>.` e (regular) | `f<l>?` e (optional) | `f<l>!` e (required) | `e` e (embedding)
+answer: `bot` | `T` | scalar token (normalised) | `{<l><t>:<val>,…}` followed by `c` if closed.
+-/
 namespace CueVerif.Driver.C01
-open CueVerif CueVerif.Driver
+open CueVerif CueVerif.Driver CueVerif.Core
+
+def parseBound (s : String) : Option (Option Int) :=
+  if s == "*" then some none else (parseInt? s).map some
+
+/-- scalar tokens -/
+def parseSc (tok : String) : Option Sc :=
+  if tok == "N" then some .null
+  else if tok == "b0" then some (.bool false)
+  else if tok == "b1" then some (.bool true)
+  else if tok == "tI" then some .tInt
+  else if tok == "tS" then some .tStr
+  else if tok == "tB" then some .tBool
+  else if tok.startsWith "i" then (parseInt? (tok.drop 1).toString).map .int
+  else if tok.startsWith "s" then ((tok.drop 1).toString.toNat?).map .str
+  else if tok.startsWith "r" then
+    match (tok.drop 1).toString.splitOn ":" with
+    | [a, b] => do
+      let lo ← parseBound a
+      let hi ← parseBound b
+      pure (.rng lo hi)
+    | _ => none
+  else none
+
+/-- `f<l>.` / `f<l>?` / `f<l>!` -/
+def parseFieldTok (tok : String) : Option (Nat × ArcTy) :=
+  if tok.startsWith "f" && tok.length ≥ 3 then
+    let body := (tok.drop 1).toString
+    let num := (body.dropEnd 1).toString
+    let t : Option ArcTy :=
+      if body.endsWith "." then some .regular
+      else if body.endsWith "?" then some .optional
+      else if body.endsWith "!" then some .required
+      else none
+    match num.toNat?, t with
+    | some l, some t => some (l, t)
+    | _, _ => none
+  else none
+
+mutual
+/-- total by fuel: every call consumes one unit -/
+def parseExpr : Nat → List String → Option (Expr × List String)
+  | 0, _ => none
+  | _, [] => none
+  | fuel + 1, tok :: rest =>
+    if tok == "T" then some (.top, rest)
+    else if tok == "B" then some (.bot, rest)
+    else if tok == "&" then
+      match parseExpr fuel rest with
+      | some (a, rest1) =>
+        match parseExpr fuel rest1 with
+        | some (b, rest2) => some (.and a b, rest2)
+        | none => none
+      | none => none
+    else if tok == "c" then
+      match parseExpr fuel rest with
+      | some (a, rest1) => some (.close a, rest1)
+      | none => none
+    else if tok == "{" then
+      match rest with
+      | nTok :: rest1 =>
+        match nTok.toNat? with
+        | some n =>
+          match parseDecls fuel n rest1 with
+          | some (ds, rest2) => some (.struct ds, rest2)
+          | none => none
+        | none => none
+      | [] => none
+    else
+      match parseSc tok with
+      | some s => some (.lit s, rest)
+      | none => none
+def parseDecls : Nat → Nat → List String → Option (Decls × List String)
+  | 0, _, _ => none
+  | _ + 1, 0, ts => some (.nil, ts)
+  | fuel + 1, n + 1, ts =>
+    match parseDecl fuel ts with
+    | some (d, rest1) =>
+      match parseDecls fuel n rest1 with
+      | some (ds, rest2) => some (.cons d ds, rest2)
+      | none => none
+    | none => none
+def parseDecl : Nat → List String → Option (Decl × List String)
+  | 0, _ => none
+  | _, [] => none
+  | fuel + 1, tok :: rest =>
+    if tok == "e" then
+      match parseExpr fuel rest with
+      | some (a, rest1) => some (.embed a, rest1)
+      | none => none
+    else
+      match parseFieldTok tok with
+      | some (l, t) =>
+        match parseExpr fuel rest with
+        | some (a, rest1) => some (.field l t a, rest1)
+        | none => none
+      | none => none
+end
+
+def showBound : Option Int → String
+  | none => "*"
+  | some z => toString z
+
+def showSc : Sc → String
+  | .int z => "i" ++ toString z
+  | .str n => "s" ++ toString n
+  | .bool b => if b then "b1" else "b0"
+  | .null => "N"
+  | .tInt => "tI"
+  | .tStr => "tS"
+  | .tBool => "tB"
+  | .rng lo hi => "r" ++ showBound lo ++ ":" ++ showBound hi
+
+def showTy : ArcTy → String
+  | .regular => "."
+  | .optional => "?"
+  | .required => "!"
+
+mutual
+def showVal : Val → String
+  | .bot => "bot"
+  | .top => "T"
+  | .sc s => showSc s
+  | .struct xs c => "{" ++ ",".intercalate (showSlots 0 xs) ++ "}" ++ (if c then "c" else "")
+def showSlots : Nat → Slots → List String
+  | _, .nil => []
+  | i, .cons .none rest => showSlots (i + 1) rest
+  | i, .cons (.some t v) rest => (toString i ++ showTy t ++ ":" ++ showVal v) :: showSlots (i + 1) rest
+end
 
 /-- protocol handler for C01: words of one op line (after the property id) → answer -/
 def handle (ws : List String) : String :=
   match ws with
+  | "eval" :: toks =>
+    match parseExpr (2 * toks.length + 4) toks with
+    | some (e, []) => showVal (eval e)
+    | _ => "bad-op"
   | _ => "bad-op"
 
 end CueVerif.Driver.C01
